@@ -29,14 +29,23 @@ def readVectoredAt (src : Bytes) (pos : Nat) (vs : VS) : Res Nat × VS :=
 `isize::MAX` (the allocation itself is assumed to succeed below that) -/
 def reserveOk (len add : Nat) : Bool := decide (len + add ≤ isizeMax)
 
+/-- the copy of one slice at `pos <= len` in `Vec<u8>::write_at` / `write_vectored_at`:
+`n = min(slice.len(), len - pos)`; `n < slice.len()`: overwrite `n` bytes, `extend_from_slice` the
+rest; otherwise overwrite in place -/
+def vecStep (v : Bytes) (pos : Nat) (s : Bytes) : Bytes :=
+  if min s.length (v.length - pos) < s.length then
+    (v.take pos ++ s.take (min s.length (v.length - pos)) ++ v.drop (pos + min s.length (v.length - pos))) ++
+      s.drop (min s.length (v.length - pos))
+  else v.take pos ++ s ++ v.drop (pos + min s.length (v.length - pos))
+
 /-- `Vec<u8>::write_at` -/
 def vecWriteAt (v : Bytes) (pos : Nat) (bs : Bytes) : Res (Nat × Bytes) :=
   if pos ≤ v.length then
-    let n := min bs.length (v.length - pos)
-    if n < bs.length then
-      if !reserveOk v.length (bs.length - n) then .panic
-      else .ok (bs.length, (v.take pos ++ bs.take n ++ v.drop (pos + n)) ++ bs.drop n)
-    else .ok (bs.length, v.take pos ++ bs ++ v.drop (pos + n))
+    if min bs.length (v.length - pos) < bs.length then
+      -- `self.reserve(slice.len() - n)`
+      if !reserveOk v.length (bs.length - min bs.length (v.length - pos)) then .panic
+      else .ok (bs.length, vecStep v pos bs)
+    else .ok (bs.length, vecStep v pos bs)
   else
     -- `pos - len + slice.len()` in `usize`, then `reserve`, `resize(pos, 0)`, `extend_from_slice`
     if pos - v.length + bs.length ≥ usizeLimit then .panic
@@ -47,13 +56,7 @@ def vecWriteAt (v : Bytes) (pos : Nat) (bs : Bytes) : Res (Nat × Bytes) :=
 def vecWriteVectoredAtGo : Bytes → Nat → List Bytes → Bytes
   | v, _, [] => v
   | v, pos, s :: rest =>
-    let v' :=
-      if pos ≤ v.length then
-        let n := min s.length (v.length - pos)
-        if n < s.length then (v.take pos ++ s.take n ++ v.drop (pos + n)) ++ s.drop n
-        else v.take pos ++ s ++ v.drop (pos + n)
-      else v ++ s
-    vecWriteVectoredAtGo v' (pos + s.length) rest
+    vecWriteVectoredAtGo (if pos ≤ v.length then vecStep v pos s else v ++ s) (pos + s.length) rest
 
 /-- `Vec<u8>::write_vectored_at` (repaired: `saturating_sub`) -/
 def vecWriteVectoredAt (v : Bytes) (pos : Nat) (bufs : List Bytes) : Res (Nat × Bytes) :=
